@@ -381,6 +381,20 @@ Definition spec_C18_registered (c : ecase) (wm : world) (h : list (option string
                        (seq 0 (List.length (w_classes wm))))
   end.
 
+(** ** C18: what [find_checker] shows is what is enforced: for every function and member the
+    object it returns is the wrapper whose code evaluates the contracts *)
+Definition fviews_of (m : mview) : list fview :=
+  match m with
+  | VFunc _ v => [v]
+  | VProp g s d => (match g with Some v => [v] | None => [] end) ++ (match s with Some v => [v] | None => [] end)
+                   ++ (match d with Some v => [v] | None => [] end)
+  | _ => []
+  end.
+Definition spec_C18_introspection (h : list (option string * wview)) : bool :=
+  forallb (fun st => forallb fv_intro (wv_funcs (snd st))
+                     && forallb (fun cv => forallb (fun m => forallb fv_intro (fviews_of m)) (cv_members cv))
+                                (wv_classes (snd st))) h.
+
 (** ** C03 (which members carry invariant checks), from the declarations:
     public or dunder methods and property accessors defined in Python are wrapped when the class
     has invariants of the matching kind; never: _x / __x, class and static methods, __new__,
